@@ -366,7 +366,7 @@ def run(ctx):
             evs2, outs, r = execute(ctx, unhx(orig_hex), evs)
             report(ctx, orig_hex, evs2, r, False)
             record(orig_hex, evs2, outs)
-        n_hist = ctx.budget(500, 25000)
+        n_hist = ctx.budget(500, 60000)
         for i in range(n_hist):
             rng = ctx.rng
             size = rng.choice([0, 1, 5, 12, 20, 20, 33, 64])
